@@ -500,6 +500,7 @@ def run(ctx):
     except OSError:
         pass
 
+    uri_stage(ctx)
     ctx.trusted_base = vlib.default_trusted_base() + [
         "C15: hand-written driver/c15_driver.ml and harness/c15_impl.cpp (instantiates the real rules/actions; checked memory_input subclass; ASan+UBSan second build)",
         "C15: the Python oracle in checks/C15.py (regular expression for the documented numeral syntax + int arithmetic)",
@@ -520,9 +521,85 @@ def run(ctx):
               maxima=len(maxima))
 
 
+def uri_stage(ctx):
+    """uri side of C15 (uri.hpp is one of the property's anchors): uri::dec_octet is the shipped use of the bounded
+    rule maximum_rule< std::uint8_t >; it must accept exactly the numerals 0..255 without superfluous leading zero,
+    consuming the whole digit run, and fail locally (nothing consumed) otherwise; IPv4address = four of them."""
+    exe = vlib.build_cpp([os.path.join(vlib.VERIF, "harness", "c15_uri_impl.cpp")], "c15_uri_impl", flags=["-O1"])
+    rc, out = vlib.sh([exe], timeout=900)
+    if rc != 0:
+        ctx.diff("c15_uri_impl failed to run", out[-1500:])
+        return 0
+
+    def octet(s):
+        """(ok, consumed) of the documented bounded rule on s"""
+        k = 0
+        while k < len(s) and s[k].isdigit():
+            k += 1
+        d = s[:k]
+        if not d or (len(d) > 1 and d[0] == "0") or int(d) > 255:
+            return False, 0
+        return True, k
+
+    def ipv4(s):
+        pos = 0
+        for i in range(4):
+            ok, k = octet(s[pos:])
+            if not ok:
+                return False, 0
+            pos += k
+            if i < 3:
+                if pos >= len(s) or s[pos] != ".":
+                    return False, 0
+                pos += 1
+        return True, pos
+    n = 0
+    bad = 0
+    for line in out.split("\n"):
+        t = line.split()
+        if len(t) != 4:
+            continue
+        n += 1
+        rule, hx, res, cons = t
+        s = bytes.fromhex(hx).decode("latin-1") if hx != "-" else ""
+        if rule == "dec_octet":
+            ok, k = octet(s)
+        elif rule == "IPv4address":
+            ok, k = ipv4(s)
+        else:
+            ok, k = ipv4(s)
+            if ok and k != len(s):
+                ok, k = False, 0
+        exp = ("1" if ok else "0", str(k))
+        if (res, cons) != exp:
+            bad += 1
+            if bad <= 3:
+                ctx.violation("uri::%s on %r: expected %s consumed %s" % (rule, s if len(s) < 6 else s[:12], exp[0], exp[1]),
+                              "uri::%s on %r gives result %s consumed %s; the bounded rule (numerals 0..255, no superfluous leading zero, whole digit run) gives %s consumed %s" % (rule, s, res, cons, exp[0], exp[1]),
+                              {"stage": "uri", "rule": rule, "input_hex": hx, "impl": [res, cons], "expected": list(exp)})
+    ctx.cover(evaluations=n, distinct=n // 4, validated=0, uri_stage_cases=n, uri_stage_mismatches=bad)
+    return n
+
+
 def replay(j):
     """bin/check --replay <file>: run the stored case on the current tree and re-evaluate the oracle."""
     r = j["replay"]
+    if r.get("stage") == "uri":
+        class _C:
+            def __init__(self):
+                self.v = []
+            def violation(self, sig, what, rp):
+                self.v.append(what)
+            def diff(self, *a, **k):
+                self.v.append(str(a))
+            def cover(self, **k):
+                pass
+        c = _C()
+        uri_stage(c)
+        for w in c.v:
+            print("REPLAY:", w)
+        print("VIOLATION property=C15 replay=(replayed)" if c.v else "no violation on the current tree")
+        return 1 if c.v else 0
     src = os.path.join(vlib.VERIF, "harness", "c15_impl.cpp")
     if "kind" not in r:
         print("replay file carries no single case")
